@@ -99,6 +99,9 @@ struct Parsed {
     tree: String,
     lookups: usize,
     error: String,
+    /// after a syntax error: what the lexer still had to read (the rest of its
+    /// buffer and of the input), taken literally
+    rest: String,
 }
 
 fn chain_of(location: &Location) -> Vec<String> {
@@ -136,6 +139,13 @@ fn parse_with(table: &[AliasDef], text: &str) -> Parsed {
             }
         }
         out.lexed = lexer.index();
+        if out.status == 1 {
+            let mut plain = lexer.disable_line_continuation();
+            while let Some(Ok(Some(c))) = plain.peek_char().now_or_never() {
+                out.rest.push(c);
+                plain.consume_char();
+            }
+        }
         for i in 0..out.lexed {
             let c = lexer.source_string(i..i + 1).chars().next().unwrap();
             let l = lexer.location_range(i..i + 1);
@@ -312,6 +322,20 @@ fn emit(w: &mut CasesWriter, case: &Case) {
         }
     }
     let buf_text: String = p.buffer.iter().map(|x| x.0).collect();
+    // a syntax error that only exists with the aliases: the text the lexer had
+    // produced so far followed by what it still had to read parses without error
+    // when no alias is defined (the parser reads left to right, so an error of
+    // the hand-substituted text would have to show in this text as well).  The
+    // marker takes the place of the printed lines, so that clause 5 (evaluated
+    // outside the token-versus-text boundary only) rejects the case.
+    let mut p = p;
+    if p.status == 1 {
+        let by_hand = parse_with(&[], &format!("{}{}", buf_text, p.rest));
+        if by_hand.status == 0 {
+            w.count("syntax-error-only-with-aliases");
+            p.tree = format!("<syntax error only with the aliases: {}>", p.error);
+        }
+    }
     // 3. the same text without aliases (after a syntax error: the part the lexer
     // had consumed; the command lines completed before the error must come out the same)
     let plain = if p.status <= 1 { parse_with(&[], &buf_text) } else { Parsed::default() };
